@@ -23,9 +23,31 @@ run(["git", "-C", wt, "apply", "-R", f"{out}/patch.diff"])
 d0 = run(["/venv/bin/python", "demo.py"], cwd=wt, env=env)
 run(["git", "-C", wt, "apply", f"{out}/patch.diff"])
 res = {}
-ap = run(["git", "-C", "/repo", "apply", f"{out}/patch.diff"])
+if os.environ.get("SEED_ISOLATED"):
+    # on a snapshot of /verif and a scratch worktree of /repo (several confirmations can run side by side)
+    r = run(["/verif/tools/try_seed_isolated.sh", f"{pid}{suffix}", *checks], env=dict(os.environ, KEEP_REPLAYS="1", LINES_SHOWN="3"))
+    cur = []
+    for l in r.stdout.split("\n"):
+        if l.startswith("VIOLATION"):
+            cur.append(l)
+        m_ = [c for c in checks if l.startswith(f"{c} rc=")]
+        if m_:
+            res[m_[0]] = {"rc": int(l.split("rc=")[1]), "violation_lines": cur[:3]}
+            if cur:
+                rp = cur[0].split("replay=")[1].split()[0]
+                try:
+                    shutil.copy(f"/tmp/try-replays-{pid}{suffix}/{rp.split('replays/')[1]}", f"{out}/replay-{m_[0]}.json")
+                except Exception:
+                    pass
+            cur = []
+    shutil.rmtree(f"/tmp/try-replays-{pid}{suffix}", ignore_errors=True)
+    ap = None
+else:
+    ap = run(["git", "-C", "/repo", "apply", f"{out}/patch.diff"])
 try:
-    if ap.returncode != 0:
+    if ap is None:
+        pass
+    elif ap.returncode != 0:
         res["apply_error"] = ap.stderr[:300]
     else:
         for c in checks:
@@ -40,12 +62,16 @@ try:
                 except Exception:
                     pass
 finally:
-    run(["git", "-C", "/repo", "checkout", "--", "."])
-    run(["/venv/bin/python", "/verif/tools/gen_tables.py"])
+    if ap is not None:
+        run(["git", "-C", "/repo", "checkout", "--", "."])
+        run(["/venv/bin/python", "/verif/tools/gen_tables.py"])
 meta = {"property": pid, "patch_files": run(["git", "-C", wt, "diff", "--stat"]).stdout.strip().split("\n"),
         "tests_with_change": tests, "demo_with_change_rc": d1.returncode, "demo_with_change_out": (d1.stdout + d1.stderr)[-400:],
         "demo_without_change_rc": d0.returncode, "checks": res,
-        "what_i_ran": f"pytest in the worktree with the change; demo.py with and without it; git -C /repo apply patch.diff; ./check {' '.join(checks)} quick; git -C /repo checkout -- ."}
+        "what_i_ran": (f"pytest in the worktree with the change; demo.py with and without it; tools/try_seed_isolated.sh (snapshot of /verif, "
+                       f"scratch worktree of /repo HEAD with patch.diff applied): ./check {' '.join(checks)} quick" if os.environ.get("SEED_ISOLATED")
+                       else f"pytest in the worktree with the change; demo.py with and without it; git -C /repo apply patch.diff; "
+                            f"./check {' '.join(checks)} quick; git -C /repo checkout -- .")}
 note = open(f"{out}/NOTE.md").read() if os.path.exists(f"{out}/NOTE.md") else ""
 meta["needs_to_manifest"] = note[:1200]
 json.dump(meta, open(f"{out}/meta.json", "w"), indent=1)
